@@ -540,6 +540,13 @@ def verify_contract(world, c, timeout_ms=10000, only_case=None, budget_s=None):
                         raise OutOfReach('contract %s declares no domain for parameter %s' % (c.name, n))
                 ctx.inputs = list(zip(names, vals))
                 ctx.inputs_vals = vals
+                if '_where' in case:
+                    # a case may add a side condition (work splitting): cases together must cover the precondition
+                    try:
+                        if not it.truth(it.call(c.fns[case['_where']], vals + [case.get('_k')])):
+                            raise Infeasible()
+                    except PyRaise:
+                        raise Infeasible()
                 old = heap_copy(vals[0]) if ('post' in c.fns and 'old' in [a.arg for a in c.fns['post'].node.args.args]) else None
                 if 'pre' in c.fns:
                     ctx.phase = 'pre'
